@@ -5,6 +5,7 @@ import (
 	"context"
 	"encoding/binary"
 	"fmt"
+	"github.com/mgtv-tech/redis-GunYu/syncer"
 	"math/rand"
 	"sort"
 	"strings"
@@ -41,6 +42,8 @@ type Scenario struct {
 	Chunk         int // value-chunking threshold in bytes (0 = production default)
 	KeyExists     string
 	Bisync        bool
+	BisyncMode    string // replay mode of a bisync scenario: "" / sync, pipeline, parallel
+	Prime         bool   // an earlier, completed (empty) snapshot at a lower offset left a root checkpoint, and the instance has looked it up once
 	PlanStyle     int
 
 	Pre []fakeredis.DB // prior target contents (nil = empty)
@@ -87,6 +90,9 @@ type Outcome struct {
 	T0, T1   int64 // wall ms around Send
 	CpWrites []int64
 	RunID    string
+	// what the SAME instance answers when it is asked for the start point after Send returned
+	// (RedisInput.Run re-uses its output: StartPoint → Send → StartPoint → …); nil if that failed
+	AfterSP *syncer.StartPoint
 }
 
 var defaultChunk = -1
@@ -164,6 +170,13 @@ func Run(sc *Scenario, hooks func(srv *fakeredis.Server, cancel context.CancelFu
 		}
 		cfg.CheckpointName = name
 		cfg.ReplayMode = config.ReplayModeSync
+		switch sc.BisyncMode {
+		case "pipeline":
+			cfg.ReplayMode = config.ReplayModePipeline
+			cfg.ReplayPipeline = true
+		case "parallel":
+			cfg.ReplayMode = config.ReplayModeParallel
+		}
 	}
 	ss, err := drive.NewSession(cfg, ids)
 	if err != nil {
@@ -173,6 +186,18 @@ func Run(sc *Scenario, hooks func(srv *fakeredis.Server, cancel context.CancelFu
 	defer cancel()
 	if _, err := ss.Out.StartPoint(ctx, ids); err != nil {
 		return nil, "startpoint: " + err.Error()
+	}
+	if sc.Prime {
+		prime := sc.Offset - 1000
+		if prime < 1 {
+			prime = 1
+		}
+		if err := ss.FullSync(ctx, drive.EmptyRDB, prime); err != nil {
+			return nil, "priming full sync: " + err.Error()
+		}
+		if sp, err := ss.Out.StartPoint(ctx, ids); err != nil || sp.Offset != prime {
+			return nil, fmt.Sprintf("start point after the priming full sync: %+v %v", sp, err)
+		}
 	}
 	n0 := len(srv.Applied())
 	r0 := len(srv.Requests())
@@ -228,6 +253,13 @@ waitLoop:
 		wait = 3 * time.Second
 	}
 	out.T1 = time.Now().UnixMilli()
+	if out.Returned {
+		spCtx, spCancel := context.WithTimeout(context.Background(), 20*time.Second)
+		if sp, err := ss.Out.StartPoint(spCtx, ids); err == nil {
+			out.AfterSP = &sp
+		}
+		spCancel()
+	}
 	out.Final = srv.Snapshot()
 	out.Apps = srv.Applied()[n0:]
 	out.Reqs = srv.Requests()[r0:]
